@@ -7,6 +7,14 @@ Three ways to put a script in front of a real `SSHReader`:
                that emits CHANNEL_DATA / CHANNEL_EOF packets exactly as scripted
   wire-server  the reader is the server process's stdin; the client channel is the raw peer (can also send
                break / signal / window-change requests, which the stream API reports as exceptions)
+
+The raw peers are *window-conforming* senders (RFC 4254 5.2): they keep their own account of the window the
+receiver advertised (initial window + the CHANNEL_WINDOW_ADJUST messages that have reached them, observed from
+outside by `AdjustTap`) and never have more bytes in flight than that.  Data that does not fit waits in the
+peer's queue (everything scripted after it waits behind it) and goes out - split at the window edge, as a real
+sender does - once an adjust has arrived.  What was really put on the wire, and when, is reported back as the
+*realized* script; that is what the Lean model is run on.  Only `send_hostile` / the `v` process event ignore the
+window (explicit hostile-peer scenarios, expected outcome: connection closed with 'Window exceeded').
 """
 
 from __future__ import annotations
@@ -18,7 +26,8 @@ from typing import Any, Callable, Dict, List, Optional, Sequence, Tuple
 
 import asyncssh
 from asyncssh.constants import (MSG_CHANNEL_DATA, MSG_CHANNEL_EXTENDED_DATA, MSG_CHANNEL_EOF, MSG_CHANNEL_CLOSE,
-                                MSG_CHANNEL_REQUEST)
+                                MSG_CHANNEL_REQUEST, MSG_CHANNEL_WINDOW_ADJUST)
+from asyncssh import packet as packetmod
 from asyncssh.packet import Boolean, String, UInt32
 from asyncssh.stream import SSHReader, SSHWriter, SSHServerStreamSession
 from asyncssh.misc import BreakReceived, SignalReceived, SoftEOFReceived, TerminalSizeChanged
@@ -165,16 +174,68 @@ class StandInChannel:
             self.session.eof_received()
 
 
+class AdjustTap:
+    """Outside observer of flow control: sums, per channel object, the CHANNEL_WINDOW_ADJUST values that channel
+    has *received* (class-level wrapping of SSHPacketLogger.log_received_packet, which the connection's receive
+    loop calls for every packet before dispatching it; observation only)."""
+
+    installed_on: Any = None
+    totals: Dict[int, int] = {}
+
+    @classmethod
+    def install(cls) -> None:
+        if cls.installed_on is packetmod.SSHPacketLogger:
+            return
+        orig = packetmod.SSHPacketLogger.log_received_packet
+
+        def log_recv(h: Any, pkttype: int, pktid: Any, packet: Any, note: str = '') -> None:
+            if pkttype == MSG_CHANNEL_WINDOW_ADJUST and not note:
+                try:
+                    payload = packet.get_full_payload() if isinstance(packet, packetmod.SSHPacket) else bytes(packet)
+                    if len(payload) == 9:       # type, recipient channel, bytes to add
+                        cls.totals[id(h)] = cls.totals.get(id(h), 0) + int.from_bytes(payload[5:9], 'big')
+                except Exception:       # noqa: BLE001
+                    pass
+            return orig(h, pkttype, pktid, packet, note)
+        packetmod.SSHPacketLogger.log_received_packet = log_recv    # type: ignore
+        cls.installed_on = packetmod.SSHPacketLogger
+
+    @classmethod
+    def total(cls, chan: Any) -> int:
+        return cls.totals.get(id(chan), 0)
+
+
+class Credit:
+    """The sender's account of the receiver's window: advertised at open + adjusts received - bytes sent."""
+
+    def __init__(self, window: int, peer_chan: Any):
+        AdjustTap.install()
+        # the server process's channel is the line-editor wrapper; packets are dispatched to the channel inside it
+        peer_chan = getattr(peer_chan, '_orig_chan', peer_chan)
+        self.window0, self.chan, self.sent = window, peer_chan, 0
+        self.base = AdjustTap.total(peer_chan)      # (ids of dead objects may be reused)
+
+    def left(self) -> int:
+        return self.window0 + AdjustTap.total(self.chan) - self.base - self.sent
+
+    def take(self, n: int) -> None:
+        self.sent += n
+
+
 class Feeder:
-    """applies arrivals to a reader; subclasses decide how"""
+    """applies arrivals to a reader; subclasses decide how.  `apply` queues a group behind whatever the peer
+    still holds and returns the arrivals that were really handed over now (the realized group)."""
     reader: Any
     text = False
 
     def conv(self, b: bytes) -> Any:
         return b.decode('latin-1') if self.text else b
 
-    async def apply(self, group: List[Tuple]) -> None:
+    async def apply(self, group: List[Tuple]) -> List[Tuple]:
         raise NotImplementedError
+
+    def has_pending(self) -> bool:
+        return False
 
     async def settle(self) -> None:
         await pair.settle(4)
@@ -193,7 +254,7 @@ class DirectFeeder(Feeder):
         self.session.connection_made(self.chan)     # type: ignore
         self.reader = SSHReader(self.session, self.chan)    # type: ignore
 
-    async def apply(self, group: List[Tuple]) -> None:
+    async def apply(self, group: List[Tuple]) -> List[Tuple]:
         for a in group:
             if a[0] == 'd':
                 self.chan.accept_data(self.conv(a[1]))
@@ -209,28 +270,66 @@ class DirectFeeder(Feeder):
                 self.session.signal_received('INT')
             else:
                 self.session.terminal_size_changed(80, 24, 0, 0)
+        return list(group)
 
 
 class WireFeeder(Feeder):
-    """reader and raw peer are the two ends of a real channel (see `Wire.open`)"""
+    """reader and raw peer are the two ends of a real channel (see `Wire.open`); `window` is what the reader's
+    side advertised when the channel was opened.  The peer conforms to it (see the module docstring)."""
 
-    def __init__(self, reader: Any, peer_chan: Any, text: bool = False, hub: Any = None):
+    def __init__(self, reader: Any, peer_chan: Any, window: int, text: bool = False, hub: Any = None):
         self.reader, self.peer, self.text, self.hub = reader, peer_chan, text, hub
+        self.credit = Credit(window, peer_chan)
+        self.pending: List[Tuple] = []
 
-    async def apply(self, group: List[Tuple]) -> None:
+    def has_pending(self) -> bool:
+        return bool(self.pending)
+
+    def _emit(self, a: Tuple) -> None:
+        if a[0] == 'd':
+            self.peer.send_packet(MSG_CHANNEL_DATA, String(a[1]))
+        elif a[0] == 'e':
+            self.peer.write_eof()
+        elif a[0] == 'x' and a[1] == 1:
+            self.peer.send_break(7)
+        elif a[0] == 'x' and a[1] == 2:
+            self.peer.send_signal('INT')
+        elif a[0] == 'x' and a[1] == 3:
+            self.peer.change_terminal_size(80, 24)
+        else:
+            raise ValueError('arrival not expressible on the wire: %r' % (a,))
+
+    async def apply(self, group: List[Tuple]) -> List[Tuple]:
         for a in group:
-            if a[0] == 'd':
-                self.peer.send_packet(MSG_CHANNEL_DATA, String(a[1]))
-            elif a[0] == 'e':
-                self.peer.write_eof()
-            elif a[0] == 'x' and a[1] == 1:
-                self.peer.send_break(7)
-            elif a[0] == 'x' and a[1] == 2:
-                self.peer.send_signal('INT')
-            elif a[0] == 'x' and a[1] == 3:
-                self.peer.change_terminal_size(80, 24)
-            else:
+            if a[0] not in 'dex' or (a[0] == 'x' and a[1] not in (1, 2, 3)):
                 raise ValueError('arrival not expressible on the wire: %r' % (a,))
+        self.pending += list(group)
+        sent: List[Tuple] = []
+        while self.pending:
+            a = self.pending[0]
+            if a[0] == 'd' and a[1]:
+                room = self.credit.left()
+                if room <= 0:
+                    break
+                part = a[1][:room]
+                self._emit(('d', part))
+                self.credit.take(len(part))
+                sent.append(('d', part))
+                if len(part) < len(a[1]):
+                    self.pending[0] = ('d', a[1][room:])
+                    break
+            else:
+                self._emit(a)
+                sent.append(a)
+            self.pending.pop(0)
+        return sent
+
+    def send_hostile(self, over: int, fill: int = 0x5a) -> bytes:
+        """a DATA packet that exceeds what is left of the advertised window by `over` bytes"""
+        data = bytes([fill]) * (max(0, self.credit.left()) + over)
+        self.peer.send_packet(MSG_CHANNEL_DATA, String(data))
+        self.credit.take(len(data))
+        return data
 
     async def settle(self) -> None:
         if self.hub is not None:        # transport bytes may be re-chunked: wait until the link is idle
@@ -251,22 +350,40 @@ def make_separator(t: Tuple, text: bool) -> Tuple[Any, Dict[str, Any]]:
     return re.compile(conv(pat)), {'max_separator_len': t[1]}
 
 
-async def run_script(feeder: Feeder, toks: Sequence[Tuple], arrivals_independent: bool = False) -> List[str]:
-    """Run a token script against feeder.reader; returns one canonical result string per op.
+async def run_script(feeder: Feeder, toks: Sequence[Tuple],
+                     arrivals_independent: bool = False) -> Tuple[List[str], List[Tuple]]:
+    """Run a token script against feeder.reader; returns (one canonical result string per op, realized script).
     A call waits for the groups that follow it up to the next call (the Lean driver reads scripts the same way).
     With arrivals_independent=True a waiting call is also given the groups scheduled after later calls (the peer
-    keeps sending whatever the application does): used by the oracle, where every call must eventually return."""
+    keeps sending whatever the application does): used by the oracle, where every call must eventually return.
+    The realized script has the calls where they were made and, as `G` tokens, what the peer really handed over at
+    each step: a window-conforming peer holds back what does not fit and sends it (as a group of its own, followed
+    by a loop settle like any other group) once the receiver has re-opened the window."""
     out: List[str] = []
+    real: List[Tuple] = []
     r = feeder.reader
     i = 0
     toks = list(toks)
+
+    async def feed(group: Optional[List[Tuple]]) -> bool:
+        """group None: only what the peer still holds"""
+        sent = await feeder.apply(group if group is not None else [])
+        if sent or (group is not None and not group):
+            real.append(('G', sent))
+            await feeder.settle()
+        elif group is not None:
+            await feeder.settle()
+        return bool(sent)
+
     while i < len(toks):
         t = toks[i]
         i += 1
         if t[0] == 'G':
-            await feeder.apply(t[1])
-            await feeder.settle()
+            await feed(t[1])
+            while feeder.has_pending() and await feed(None):
+                pass
             continue
+        real.append(t)
         if t[0] == 'Q':
             out.append('eof=%d' % (1 if r.at_eof() else 0))
             continue
@@ -282,6 +399,8 @@ async def run_script(feeder: Feeder, toks: Sequence[Tuple], arrivals_independent
         task = asyncio.ensure_future(coro)
         await feeder.settle()
         while not task.done():
+            if feeder.has_pending() and await feed(None):
+                continue
             if i < len(toks) and toks[i][0] == 'G':
                 j = i
             elif arrivals_independent:
@@ -291,8 +410,7 @@ async def run_script(feeder: Feeder, toks: Sequence[Tuple], arrivals_independent
             else:
                 break
             g = toks.pop(j)
-            await feeder.apply(g[1])
-            await feeder.settle()
+            await feed(g[1])
         if not task.done():
             task.cancel()
             try:
@@ -305,7 +423,7 @@ async def run_script(feeder: Feeder, toks: Sequence[Tuple], arrivals_independent
             out.append('ok:' + hx(_b(task.result())))
         except BaseException as e:      # noqa: BLE001
             out.append(canon_exc(e))
-    return out
+    return out, real
 
 
 # ---------------------------------------------------------------------------
@@ -323,6 +441,8 @@ class Wire:
         self._waiters: List[asyncio.Future] = []
 
     async def start(self, chunker: Any = None, server_window: int = 2 ** 21) -> None:
+        self.server_window = server_window
+
         async def handler(process: Any) -> None:
             self.procs.append(process)
             if self._waiters:
@@ -344,10 +464,80 @@ class Wire:
             return cp.stdout, sp.channel, cp
         return sp.stdin, cp.channel, cp
 
+    async def open_feeder(self, kind: str, limit: int) -> Tuple['WireFeeder', Any]:
+        """(feeder with a window-conforming raw peer, client process); in server mode the reader's window is the
+        one this connection's server was started with"""
+        reader, peer, cp = await self.open(kind, limit)
+        return WireFeeder(reader, peer, limit if kind == 'client' else self.server_window, hub=self.hub), cp
+
+    def alive(self) -> bool:
+        try:
+            return self.c is not None and not self.c.is_closed() and not self.s.is_closed()
+        except Exception:       # noqa: BLE001
+            return False
+
     async def stop(self) -> None:
         if self.c is not None:
             self.c.abort()
         await pair.settle(10)
+
+
+class RigError(Exception):
+    """no channel could be opened even on a fresh connection"""
+
+
+class Rig:
+    """Keeps a `Wire` usable across many scenarios: a fresh connection after `per_conn` channels, when the server's
+    window has to change, and whenever the current one has died (a scenario in which the code under test - or a
+    hostile peer scenario - closed the connection must not take the following scenarios down with it)."""
+
+    def __init__(self, chunker_factory: Optional[Callable[[int], Any]] = None, per_conn: int = 40):
+        self.chunker_factory, self.per_conn = chunker_factory, per_conn
+        self.w: Optional[Wire] = None
+        self.n = 0
+        self.conns = 0
+        self.reopened_dead = 0
+
+    async def _restart(self, server_window: int) -> None:
+        await self.close()
+        self.w = Wire()
+        chunker = self.chunker_factory(self.conns) if self.chunker_factory else None
+        self.conns += 1
+        self.n = 0
+        await asyncio.wait_for(self.w.start(chunker=chunker, server_window=server_window), 20)
+
+    async def feeder(self, kind: str, limit: int) -> Tuple['WireFeeder', Any]:
+        last: Optional[BaseException] = None
+        for _attempt in range(2):
+            try:
+                swin = limit if kind == 'server' else 2 ** 21
+                if self.w is not None and not self.w.alive():
+                    self.reopened_dead += 1
+                if self.w is None or not self.w.alive() or self.n >= self.per_conn or \
+                        (kind == 'server' and self.w.server_window != swin):
+                    await self._restart(swin)
+                assert self.w is not None
+                self.n += 1
+                return await self.w.open_feeder(kind, limit)
+            except (asyncssh.Error, asyncio.TimeoutError, OSError, AssertionError) as e:
+                last = e
+                await self.close()
+        raise RigError('%s: %s' % (type(last).__name__, last))
+
+    @property
+    def hub(self) -> Any:
+        return self.w.hub if self.w is not None else None
+
+    def alive(self) -> bool:
+        return self.w is not None and self.w.alive()
+
+    async def close(self) -> None:
+        if self.w is not None:
+            try:
+                await self.w.stop()
+            except Exception:       # noqa: BLE001
+                pass
+            self.w = None
 
 
 # ---------------------------------------------------------------------------
@@ -406,6 +596,8 @@ def pev_str(ev: Tuple) -> str:
     k = ev[0]
     if k in 'dD':
         return k + hx(ev[1])
+    if k in 'vV':
+        return '%s%d' % (k, ev[1])
     if k in 'sS':
         return '%s%d' % (k, ev[1])
     if k in 'xr':
@@ -413,17 +605,43 @@ def pev_str(ev: Tuple) -> str:
     return k
 
 
+def parse_pev(x: str) -> Tuple:
+    if x[0] in 'dD':
+        return (x[0], unhx(x[1:]))
+    if x[0] in 'sSxrvV':
+        return (x[0], int(x[1:]))
+    return (x,)
+
+
 SIGNALS = {1: 'HUP', 2: 'INT', 9: 'KILL', 15: 'TERM'}
 
 
+WIRE_EVENTS = 'dDesScvV'
+HOSTILE_FILL = 0x5a
+
+
 async def run_proc_events(limit: int, evs: Sequence[Tuple], chunker: Any = None) -> Dict[str, Any]:
-    """Raw peer plays `evs` against a real client process on a fresh connection.  Returns observables."""
+    """Raw peer plays `evs` against a real client process on a fresh connection.  Returns observables, among them
+    `events`: the realized event list.  The peer conforms to the client's receive window (= `limit`): wire events
+    are sent in script order, a data event that does not fit is split at the window edge and the rest of it - and
+    every wire event scripted after it - waits until a loop turn (`t`) has brought a WINDOW_ADJUST; what is still
+    held when the script ends is sent as soon as the window allows (each round followed by a `t`), the rest is
+    never sent.  Application events (`w`, `r`), loop turns and disconnects (`x`) happen where the script has them.
+    Events `v<n>` (stdout) / `V<n>` (stderr) are the explicit hostile ones: one packet of HOSTILE_FILL bytes that
+    exceeds what is left of the window by n bytes (`hostile` in the result lists their sizes); with n = 0 the
+    packet fills the window to the last byte, which is conforming: it is realized as an ordinary d/D event."""
     got: List[Any] = []
 
     async def handler(process: Any) -> None:
         got.append(process)
         await asyncio.sleep(3600)
-    c, sconn, hub = await pair.make_pair(server_opts=dict(process_factory=handler, encoding=None), chunker=chunker)
+    lost: List[Any] = []
+
+    class Client(asyncssh.SSHClient):
+        def connection_lost(self, exc: Optional[Exception]) -> None:
+            lost.append(exc)
+    c, sconn, hub = await pair.make_pair(server_opts=dict(process_factory=handler, encoding=None), chunker=chunker,
+                                         client_opts=dict(client_factory=Client))
     res: Dict[str, Any] = {}
     try:
         p = await c.create_process('x', encoding=None, window=limit, max_pktsize=32768)
@@ -433,15 +651,23 @@ async def run_proc_events(limit: int, evs: Sequence[Tuple], chunker: Any = None)
             await asyncio.sleep(0)
         await pair.settle(8)
         sch = got[0].channel
+        credit = Credit(limit, sch)
         closed_once = False
         wait_task: Optional[asyncio.Task] = None
         sink: Optional[Sink] = None
-        sink_recv_eof = False
+        pending: List[Tuple] = []
+        realized: List[Tuple] = []
+        hostile: List[int] = []
+        gone = False
+        unsynced = False        # data sent since the last loop turn
+        inflight = False        # anything sent since the last loop turn
 
         def raw(pkttype: int, *args: bytes) -> None:
             sconn.send_packet(pkttype, UInt32(0), *args)
 
-        for ev in evs:
+        def put(ev: Tuple) -> None:
+            nonlocal closed_once, inflight
+            inflight = True
             k = ev[0]
             if k == 'd':
                 raw(MSG_CHANNEL_DATA, String(ev[1]))
@@ -460,28 +686,94 @@ async def run_proc_events(limit: int, evs: Sequence[Tuple], chunker: Any = None)
                     sch.close()     # emits CHANNEL_CLOSE now (nothing is buffered on this side)
                 else:
                     raw(MSG_CHANNEL_CLOSE)
+
+        def flush() -> bool:
+            nonlocal unsynced
+            progressed = False
+            while pending:
+                ev = pending[0]
+                if ev[0] in 'dD' and ev[1] and not (gone or sconn.is_closed()):
+                    room = credit.left()
+                    if room <= 0:
+                        break
+                    part = ev[1][:room]
+                    put((ev[0], part))
+                    credit.take(len(part))
+                    realized.append((ev[0], part))
+                    progressed = unsynced = True
+                    if len(part) < len(ev[1]):
+                        pending[0] = (ev[0], ev[1][room:])
+                        break
+                elif ev[0] in 'vV' and unsynced and not (gone or sconn.is_closed()):
+                    # an adjust for what was just sent may be on its way: only after a loop turn is what the peer
+                    # believes to be left of the window what the receiver believes, too
+                    break
+                elif ev[0] in 'vV':
+                    data = bytes([HOSTILE_FILL]) * (max(0, credit.left()) + ev[1])
+                    put(('d' if ev[0] == 'v' else 'D', data))
+                    credit.take(len(data))
+                    if ev[1] > 0:
+                        hostile.append(len(data))
+                        realized.append(ev)
+                    elif data:
+                        realized.append(('d' if ev[0] == 'v' else 'D', data))
+                    progressed = True
+                else:
+                    put(ev)
+                    realized.append(ev)
+                    progressed = True
+                pending.pop(0)
+            return progressed
+
+        for ev in evs:
+            k = ev[0]
+            if k in 'xwr' and inflight:
+                # something went out since the last loop turn (typically what the peer had held back, sent after the
+                # script's own `t`): let it arrive before the application acts / the peer disconnects.  An event of
+                # the model is an arrival; bytes still in flight when the link is cut are not a scenario here.
+                await pair.settle(14)
+                unsynced = inflight = False
+                realized.append(('t',))
+            if k in WIRE_EVENTS:
+                pending.append(ev)
+                flush()
             elif k == 't':
                 await pair.settle(14)
+                unsynced = inflight = False
+                realized.append(ev)
+                flush()
             elif k == 'x':
                 if ev[1]:
                     hub.cut_transport()
                 else:
                     sconn.disconnect(11, 'bye')     # closes its channels (CHANNEL_CLOSE), then DISCONNECT
                     closed_once = True
+                gone = True
+                realized.append(ev)
                 await pair.settle(14)
+                flush()     # goes nowhere
             elif k == 'w':
                 if wait_task is None:
                     wait_task = asyncio.ensure_future(p.wait())
+                realized.append(ev)
                 await pair.settle(6)
             elif k == 'r':
                 if sink is None:
                     sink = Sink()
-                    sink_recv_eof = bool(ev[1])
                     try:
                         await p.redirect_stdout(sink, recv_eof=bool(ev[1]))
                     except Exception as e:      # noqa: BLE001
                         res['redirect'] = 'raised:' + type(e).__name__
+                realized.append(ev)
                 await pair.settle(6)
+        # the peer goes on sending what it holds as the window re-opens; nobody acts on the client side any more
+        for _ in range(200):
+            if realized and realized[-1] != ('t',):
+                await pair.settle(14)
+                unsynced = inflight = False
+                realized.append(('t',))
+            if not (pending and flush()):
+                break
         await pair.settle(14)
         if wait_task is not None and wait_task.done():
             try:
@@ -493,12 +785,19 @@ async def run_proc_events(limit: int, evs: Sequence[Tuple], chunker: Any = None)
                 res['wait'] = (st, None if sig is None else sig[0], bytes(r.stdout), bytes(r.stderr))
             except BaseException as e:      # noqa: BLE001
                 res['wait'] = 'raised:' + type(e).__name__
+                res['wait_exc'] = e
         else:
             res['wait'] = None
             if wait_task is not None:
                 wait_task.cancel()
         res['target'] = sink.content() if sink is not None else b''
         res['target_closed'] = bool(sink is not None and sink.closed)
+        res['events'] = realized
+        res['unsent'] = list(pending)
+        res['hostile'] = hostile
+        res['closed'] = bool(c.is_closed())
+        res['conn_lost'] = None if not lost else ('clean' if lost[0] is None else
+                                                  '%s:%s' % (type(lost[0]).__name__, getattr(lost[0], 'reason', '')))
     finally:
         c.abort()
         await pair.settle(10)
